@@ -19,7 +19,7 @@ PROPERTY = "C08"
 
 META = {
     "bounds": {
-        "quick": "19 placement patterns (shadowing, named scopes inside loop iterations and inside a macro applied several times, definitions inside taken / untaken .if and else branches (not scopes), fallback, isolation, sibling reuse, forward references, depth-3 nesting, qualified exports before/after/inside blocks) x 4 scope kinds x 3 definition kinds (label, =, :=), rename twins and unrelated-definition twins; start address and every constant value (-2^23 .. 2^24-1) symbolic",
+        "quick": "20 placement patterns (shadowing, same-named sibling scopes, named scopes inside loop iterations and inside a macro applied several times, definitions inside taken / untaken .if and else branches (not scopes), fallback, isolation, sibling reuse, forward references, depth-3 nesting, qualified exports before/after/inside blocks) x 4 scope kinds x 3 definition kinds (label, =, :=), rename twins and unrelated-definition twins; start address and every constant value (-2^23 .. 2^24-1) symbolic",
         "thorough": "same plus VERIF_SEED-drawn 600 random scope trees (depth <= 3, <= 5 scopes, names a,b)",
     },
     "outside": ["scope trees beyond the bound", "duplicate definitions of a name in one scope", "qualified names with more than one dot (not expressible in the source language)", "references with inferred-width instructions (C02)"],
@@ -104,6 +104,11 @@ def patterns():
         g = Gen()
         body = [g.s("named", [g.d("a", dk)], "ns"), R("ns.a")]
         out.append((f"export-in-macro-applied-twice/{dk}", [("scope", "macro", "mk", body, []), R("ns.a"), ("scope", "macro", "mk", body, []), g.s("named", [("scope", "macro", "mk", body, []), R("ns.a")], "outer")]))
+    # two named scopes of the same name under one parent are two scopes: what the first defines is not visible, unqualified, in the second
+    for dk in DEFKINDS:
+        for dk2 in DEFKINDS:
+            g = Gen()
+            out.append((f"same-named-siblings/{dk}-{dk2}", [g.d("a", dk), g.s("named", [g.d("a", dk2), R("a")], "gfx"), g.s("named", [R("a"), g.d("b", "eq")], "gfx"), R("gfx.a"), R("gfx.b")]))
     # conditionals are not scopes: what the selected branch defines belongs to the enclosing scope
     for dk in DEFKINDS:
         for br in ("then-taken", "else-taken", "then-untaken", "else-untaken"):
